@@ -111,6 +111,10 @@ func ValidateClientConfig(scheme string, clientconfig *proxyv1alpha1.ClientConfi
 		if !clientconfig.Insecure && len(clientconfig.CAData) == 0 {
 			allErrs = append(allErrs, field.Required(fldPath.Child("caData"), "clientConfig must supply caData when using secure mode"))
 		}
+		if clientconfig.Insecure && len(clientconfig.CAData) > 0 {
+			// client-go refuses to build a transport for this combination
+			allErrs = append(allErrs, field.Invalid(fldPath.Child("caData"), "", "clientConfig must not supply caData when insecure is set"))
+		}
 
 		var hasToken, hasKey, hasCert bool
 		if len(clientconfig.BearerToken) > 0 {
